@@ -15,7 +15,8 @@ RULE = ("Hypothesis draws an environment, a differentiable scalar recipe (litera
         "gradient(e, v).evaluate(p) is compared with a forward-mode jet of the same recipe at regular points "
         "(distance >= 0.05 from every kink/pole).  Non-trivial = v occurs in e, >= 2 operator nodes and at "
         "least one function, reduction or * / ** node; the non-occurring class is judged for exact 0 and "
-        "counted separately.")
+        "counted separately."
+        '  Also: wrt may be an equal-by-name freshly created Variable; parameters are updated after differentiation and both the gradient already held and a newly requested one are judged at the new values; nested even powers, tiny/large constants and off-diagonal blocks of symmetric matrices are generated on purpose.')
 BUDGET = {"quick": {"workers": 16, "examples": 300}, "thorough": {"workers": 16, "examples": 8000}}
 ASSUMPTIONS = ["the jet rules are validated against mpmath differentiation at start-up",
                "points within 0.05 of a non-smooth or undefined set are not judged"]
